@@ -69,13 +69,43 @@ def check(ctx):
     body = loop.body()
     queue = N.txt(head.ast.iter)
     # ---- C07.1 -----------------------------------------------------------
-    inner = [n for n in body if n.kind == 'for' and any(
-        K.is_meth(c, 'remove') and c.args and
-        N.txt(c.args[0]) == '%s.name' % sorted(N.for_targets(n))[0]
-        for m in K.loop_body_nodes(n) for c in C.node_calls(m))]
+    def victim_of(loop_node):
+        """(victim local, domain expression, index range or None) of a
+        loop that takes instances off their servers: the loop target
+        itself, or a local read from <domain>[<loop target>] when the walk
+        goes by position."""
+        tgt = sorted(N.for_targets(loop_node))[0]
+        cands = [(tgt, loop_node.ast.iter, None)]
+        for m in K.loop_body_nodes(loop_node):
+            if m.kind == 'stmt' and isinstance(m.ast, ast.Assign) and \
+                    isinstance(m.ast.targets[0], ast.Name) and \
+                    isinstance(m.ast.value, ast.Subscript) and \
+                    N.txt(m.ast.value.slice) == tgt:
+                cands.append((m.ast.targets[0].id, m.ast.value.value,
+                              loop_node.ast.iter))
+        for name, dom, rng in cands:
+            if any(K.is_meth(c, 'remove') and c.args and
+                   N.txt(c.args[0]) == '%s.name' % name
+                   for m in K.loop_body_nodes(loop_node)
+                   for c in C.node_calls(m)):
+                return name, dom, rng
+        return None
+    inner = [n for n in body if n.kind == 'for' and victim_of(n)]
     scan = K.one(inner, 'victim scan loop inside the placement loop')
-    victim = sorted(N.for_targets(scan))[0]
-    dom_expr = scan.ast.iter
+    victim, dom_expr, by_index = victim_of(scan)
+    if by_index is not None:
+        # a walk by position covers the list only from its first position
+        whole = isinstance(by_index, ast.Call) and \
+            N.txt(by_index.func) == 'range' and (
+                (len(by_index.args) == 1 and
+                 N.txt(by_index.args[0]) == 'len(%s)' % N.txt(dom_expr)) or
+                (len(by_index.args) == 2 and
+                 N.txt(by_index.args[0]) == '0' and
+                 N.txt(by_index.args[1]) == 'len(%s)' % N.txt(dom_expr)))
+        ctx.ob('C07.1', func, scan, whole,
+               'a scan by position starts at the far end of the queue and '
+               'covers it up to the current instance (%s)' %
+               N.txt(by_index), construct='victim scan positions')
     src = dom_expr
     if isinstance(dom_expr, ast.Name):
         defs = [s for s in K.walk_no_nested(func.node)
@@ -187,8 +217,11 @@ def check(ctx):
            construct='restore map lifetime')
     val = mnode.ast.value
     vtxt = K.rtxt(func, val)
+    # the victim under its own name or as what that name stands for
+    vres = K.rtxt(func, ast.Name(id=victim, ctx=ast.Load()))
     ctx.ob('C07.3', func, mnode,
-           '%s.placement_expiry' % victim in vtxt and 'server' in vtxt,
+           ('%s.placement_expiry' % victim in vtxt or
+            '%s.placement_expiry' % vres in vtxt) and 'server' in vtxt,
            'the record holds the victim server and expiry: %s' % vtxt,
            construct='record content')
     mtests = [n for n in body if n.kind == 'test' and
@@ -305,6 +338,13 @@ def check(ctx):
     ctx.ob('C07.5', where or func, None, ok,
            'instances of equal priority: running before pending in the sort '
            'key', construct='sort key running-before-pending')
+    # shared with C06.5: the order between allocations is decided by whole
+    # queue entries (rank, utilisation, pending flag, arrival) - the merge of
+    # the sub-queues compares all of it and drops nothing
+    from . import c06
+    with ctx.shared({'C06': 'C07.5'}):
+        _alloc6, priv6, merged6 = c06._generators(ctx)
+        c06._exactly_once(ctx, priv6, merged6)
 
 
 _S = 'lib/python/treadmill/scheduler/__init__.py'
